@@ -409,7 +409,9 @@ class RequestWideParams(object):
         # JSONschema has already confirmed that limit has the form
         # of an integer.
         if limit:
-            limit = int(limit[0])
+            # The schema validated the value webob reports for the key,
+            # which for a repeated parameter is the last one.
+            limit = int(limit[-1])
 
         # TODO(efried): Make it an error to specify group_policy more than once
         #  - maybe when we make it optional.
